@@ -225,7 +225,19 @@ def metric_scenarios(pl):
         cases.append(([5.0], ['long'], [0.1], [60.0], [model.get(f'b{j}', 100.0) or 100.0 for j in range(d)]))
     cases += [([10.0, 0.0, -5.0, 15.0], ['long', 'short', 'long', 'short'], [0.1] * 4, [60.0, 120.0, 30.0, 45.0], [100.0, 90.0, 80.0, 85.0]),
               ([-3.0, -4.0, 2.0], ['short', 'short', 'long'], [0.0] * 3, [10.0] * 3, [100.0, 90.0, 95.0]),
-              ([7.0], ['long'], [0.2], [300.0], [100.0, 110.0, 105.0, 120.0, 90.0])]
+              ([7.0], ['long'], [0.2], [300.0], [100.0, 110.0, 105.0, 120.0, 90.0]),
+              # PnLs smaller than one unit of the quote currency, large ones, zero-PnL trades inside streaks
+              ([0.3, 0.2, 0.5, -0.4, -0.1, 0.2], ['long'] * 6, [0.01] * 6, [60.0] * 6, [100.0, 100.6, 100.7]),
+              ([-0.25, -0.5, 0.75, 0.0, 0.125], ['short', 'long', 'short', 'long', 'long'], [0.0] * 5, [15.0] * 5, [100.0, 99.0, 99.5, 101.0]),
+              ([1500.0, 0.0, 0.0, -2500.5, 3.0, 4.0, 5.0], ['long', 'short'] * 3 + ['long'], [1.5] * 7, [600.0] * 7, [10000.0, 11500.0, 9000.0, 9012.0])]
+    import random
+    rng = random.Random(1234)
+    for _ in range(40):
+        n = rng.randint(1, 9)
+        cases.append(([rng.choice([0.0, round(rng.uniform(-2, 2), 3), round(rng.uniform(-300, 300), 2)]) for _ in range(n)],
+                      [rng.choice(['long', 'short']) for _ in range(n)], [round(rng.uniform(0, 0.5), 3) for _ in range(n)],
+                      [float(rng.randint(1, 5000)) for _ in range(n)],
+                      [round(100.0 * (1 + rng.uniform(-0.2, 0.2)), 2) for _ in range(rng.randint(2, 6))]))
     for pnls, types, fees, holds, balances in cases:
         m, start, finish = run_metrics(pnls, types, fees, holds, balances)
         env = dict(pnls=pnls, types=types, fees=fees, holds=holds, start=start, finish=finish, balances=balances, m=m)
